@@ -2,8 +2,24 @@
 """Regenerates MANIFEST.json from the table below (keeps it schema-valid at all times)."""
 import json, subprocess, sys
 
+SIM = "deterministic simulation with fault injection: "
 CLAIMED = {
     # id: (level, technique, text, note, design_ref)
+    "C01": ("exploration",
+            SIM + "seeded rollup histories on a contract model; Byzantine prover (witness faults + forged hint outputs) against the real compiled insertion R1CS; both directions asserted; tape shrinking + fresh-process replay",
+            "World R: per run a seeded history (earlier insertions/deletions leaving holes) on a reference contract model, then honest and adversarial insertion attempts from a catalogue of 18 witness faults (stale/corrupted/foreign paths, occupied targets, straddling, aliasing, >=2^32 and field-wrapping start indices, wrong post-roots, value+r representatives) evaluated on the real compiled R1CS at depths 1..32 with honest and forged hint functions; the wire vector is re-checked by an independent constraint evaluator. oracle-valid => accepted and oracle-invalid => rejected under every strategy tried, plus state-level refinement against the contract's leaf array. Exploration is the right level: the property quantifies over histories and a dishonest second party, which a seeded adversary with a reference model samples and unit tests never reach.",
+            "Trusted: gnark's frontend/solver as the semantics of the compiled system (cross-checked by our evaluator); iden3 Poseidon and x/crypto Keccak as references; soundness probed by enumerated hint-forgery strategies, not proved.",
+            "6.C01"),
+    "C02": ("exploration",
+            SIM + "seeded rollup histories; Byzantine prover against the real compiled deletion R1CS incl. padding slots with garbage and forged is-zero/bit hints; both directions asserted",
+            "World R for the deletion circuit: seeded histories populate the contract model, then honest batches (distinct, duplicate with updated second slot, already-empty, padding slots with garbage item and path, all-padding) and 13 adversarial faults (wrong item, stale paths, corrupted siblings, padding-with-changed-root, index beyond padding range, claimed skip for in-range index, forged InvZero and NBits hints) are evaluated on the real R1CS at depths 1..31; verdicts are compared with the slot-by-slot semantics of the property and with the contract's leaf array.",
+            "Trusted as C01. Depth 32 refusal is checked under C12.",
+            "6.C02"),
+    "C03": ("exploration",
+            SIM + "Byzantine prover attacks only the hash binding of Merkle-valid batches (alternative representatives with forged bit hints, perturbed fields under the original hash, re-packed messages, stale hashes) on the real R1CS; accept-control with hash+k*r",
+            "World R, hash-binding focus: every attempt starts from a Merkle-valid batch; the adversary sets the public input to the hash of its own forged packing (v+k*r representatives with NBits forged to exactly those bits, swapped/little-endian/wide packings, reordered fields, earlier batch's hash, neighbours) or keeps the original hash for a different but Merkle-consistent batch; all must be rejected while hash+k*r (same field element) must be accepted; on every accepting evaluation the public wire must equal the contract's own Keccak of the canonical packing. One- and multi-block message sizes for both modes (deletion batch 18-20 crosses the 136-byte rate).",
+            "Trusted as C01; the contract's packing is written from the property text.",
+            "6.C03"),
     "C18": ("exploration",
             "deterministic simulation: seeded update histories of the real off-chain tree in lock-step with a reference leaf-array model; tape shrinking + fresh-process replay",
             "Seeded histories (1..200 updates, depths 1..32, overwrites, zero writes, extreme and neighbouring indices, aliasing probes on earlier returned paths) drive the real PoseidonTree in lock-step with an independent sparse leaf-array model; root, returned path (old value/old root, new value/new root), sibling equality and read-back of untouched leaves are compared after every step. Exploration is the right level: the property quantifies over histories, and a model-based seeded search with shrinking covers far more histories than the suite's zero.",
